@@ -52,6 +52,9 @@ func splitMap(s string, addKV func(k, v string) error) error {
 
 	inKey := true
 	inValue := false
+	// haveKey records that a key token was seen for the current pair; the
+	// empty string is a legal key, so curKey cannot serve as its own sentinel.
+	haveKey := false
 	curKey := ""
 	curVal := ""
 	for tok := sc.Scan(); sc.ErrorCount == 0; tok = sc.Scan() {
@@ -68,14 +71,15 @@ func splitMap(s string, addKV func(k, v string) error) error {
 
 			if inKey {
 				curKey = txt
-			} else if inValue && curKey != "" {
+				haveKey = true
+			} else if inValue && haveKey {
 				curVal = txt
 			} else {
 				return fmt.Errorf("unexpected string literal: %s",
 					sc.TokenText())
 			}
 		case ',':
-			if curKey != "" {
+			if haveKey {
 				if addErr := addKV(curKey, curVal); addErr != nil {
 					return fmt.Errorf("map parsing failed on key %q: %s",
 						curKey, addErr)
@@ -84,16 +88,17 @@ func splitMap(s string, addKV func(k, v string) error) error {
 
 			curKey = ""
 			curVal = ""
+			haveKey = false
 			inKey = true
 			inValue = false
 		case ':':
-			if inValue || curKey == "" {
+			if inValue || !haveKey {
 				return fmt.Errorf("unexpected colon")
 			}
 			inKey = false
 			inValue = true
 		case scanner.EOF:
-			if curKey != "" {
+			if haveKey {
 				if addErr := addKV(curKey, curVal); addErr != nil {
 					return fmt.Errorf("map parsing failed on key %q: %s",
 						curKey, addErr)
